@@ -789,6 +789,20 @@ emitCollectIntermedSymes(Stab stab, Foam foam)
  ****************************************************************************/
 
 /*
+ * Close an output file.  A write, flush or close that failed (for instance
+ * because the device is full) is a fatal error: the file is not complete.
+ */
+local void
+emitFileClose(FILE *fout, FileName fn)
+{
+	Bool	failed = ferror(fout) != 0;
+
+	if (fclose(fout) != 0) failed = true;
+	if (failed)
+		comsgFatal(NULL, ALDOR_F_CantWrite, fnameUnparseStatic(fn));
+}
+
+/*
  * Emit the .ai file of included source.
  */
 void
@@ -801,7 +815,7 @@ emitTheIncluded(EmitInfo finfo, SrcLineList sll)
 	emitInfoInUse(finfo, FTYPENO_INCLUDED) = true;
 	fout = fileWrOpen(fn);
 	inclWrite(fout, sll);
-	fclose(fout);
+	emitFileClose(fout, fn);
 	emitInfoInUse(finfo, FTYPENO_INCLUDED) = false;
 	emitSetDone(FTYPENO_INCLUDED);
 }
@@ -819,7 +833,7 @@ emitTheAbSyn(EmitInfo finfo, AbSyn absyn)
 	emitInfoInUse(finfo, FTYPENO_ABSYN) = true;
 	fout = fileWrOpen(fn);
 	abWrSExpr(fout, absyn, emitSxIoMode);
-	fclose(fout);
+	emitFileClose(fout, fn);
 	emitInfoInUse(finfo, FTYPENO_ABSYN) = false;
 	emitSetDone(FTYPENO_ABSYN);
 }
@@ -837,7 +851,7 @@ emitTheOldAbSyn(EmitInfo finfo, AbSyn absyn)
 	emitInfoInUse(finfo, FTYPENO_OLDABSYN) = true;
 	fout = fileWrOpen(fn);
 	abWrSExpr(fout, absyn, emitSxIoMode);
-	fclose(fout);
+	emitFileClose(fout, fn);
 	emitInfoInUse(finfo, FTYPENO_OLDABSYN) = false;
 	emitSetDone(FTYPENO_OLDABSYN);
 }
@@ -940,7 +954,7 @@ emitTheSymbolExpr(EmitInfo finfo, SymeList symes, AbSyn macs)
 	listFree(AbSyn)(tu->typesOther);
 	stoFree(tu);
 #endif
-	fclose(fout);
+	emitFileClose(fout, fn);
 	emitInfoInUse(finfo, FTYPENO_SYMEEXPR) = false;
 	emitSetDone(FTYPENO_SYMEEXPR);
 }
@@ -959,7 +973,7 @@ emitTheAnnotatedAbSyn(EmitInfo finfo, SExpr whole)
 	fout = fileWrOpen(fn);
 	sxiWrite(fout, whole, SXRW_Default);
 
-	fclose(fout);
+	emitFileClose(fout, fn);
 	emitInfoInUse(finfo, FTYPENO_ANNABS) = false;
 	emitSetDone(FTYPENO_ANNABS);
 }
@@ -978,7 +992,7 @@ emitTheFoamExpr(EmitInfo finfo, Foam foam)
 	emitInfoInUse(finfo, FTYPENO_FOAMEXPR) = true;
 	fout = fileWrOpen(fn);
 	foamWrSExpr(fout, foam, emitSxIoMode);
-	fclose(fout);
+	emitFileClose(fout, fn);
 	emitInfoInUse(finfo, FTYPENO_FOAMEXPR) = false;
 	emitSetDone(FTYPENO_FOAMEXPR);
 }
@@ -1017,7 +1031,7 @@ emitTheLisp(EmitInfo finfo, SExpr lispCode)
 		fprintf(fout, "\n");
 		sxiWrite(fout, sxCar(lispCode), glWriteMode | emitSxIoMode);
 	}
-	fclose(fout);
+	emitFileClose(fout, fn);
 	emitInfoInUse(finfo, FTYPENO_LISP) = false;
 	emitSetDone(FTYPENO_LISP);
 }
@@ -1109,7 +1123,7 @@ emitTheC(EmitInfo finfo, CCodeList cco)
 					fprintf(fout, "\n#include \"%s\"",
 						fnameUnparseStatic(hfn));
 				ccoPrint(fout, car(cco), ccmode);
-				fclose(fout);
+				emitFileClose(fout, fn);
 			}
 		}
 		else
@@ -1119,7 +1133,7 @@ emitTheC(EmitInfo finfo, CCodeList cco)
 	emitInfoInUse(finfo, FTYPENO_C) = false;
 	emitSetDone(FTYPENO_LISP);
 	if (hout) {
-		fclose(hout);
+		emitFileClose(hout, hfn);
 		emitInfoInUse(finfo, FTYPENO_H) = false;
 		emitSetDone(FTYPENO_H);
 	}
@@ -1211,7 +1225,7 @@ emitOneJavaFile(EmitInfo finfo, JavaCode javaFile)
 	jcoWrite(ctxt, javaFile);
 	jcoPContextFree(ctxt);
 	ostreamClose(ostream);
-	fclose(fout);
+	emitFileClose(fout, fn);
 }
 
 local FileName
